@@ -289,7 +289,7 @@ int main(int argc, char** argv)
 				{
 					Node x = gen.scalar(false);
 					if (row.k == 'a') row.a.push_back(x);
-					else row.o.push_back(std::make_pair(gen.ident(j) + std::to_string(j), x));
+					else row.o.push_back(std::make_pair("k" + std::to_string(j) + "_" + gen.ident(j), x)); // distinct by construction
 				}
 				doc.a.push_back(row);
 			}
